@@ -400,7 +400,7 @@ def run_path(E, contract, fn, res):
         if not E.feasible(c.when):
             continue
         res.case_cover[c.name] = res.case_cover.get(c.name, 0) + 1
-        E.solver.push()
+        E.push()
         nfacts = len(E.facts)
         # the contracts memoise which unfoldings / lemma instances they have already added in E.ghost; the facts of
         # one case are withdrawn before the next case is checked, so the memo must be withdrawn with them
@@ -413,7 +413,7 @@ def run_path(E, contract, fn, res):
         finally:
             del E.facts[nfacts:]
             del E.fact_small[nfacts:]
-            E.solver.pop()
+            E.pop()
             E.ghost.clear()
             E.ghost.update(ghost_saved)
             E.keccak_terms[:] = kt_saved
